@@ -170,3 +170,30 @@ PROPS["C06"] = {
     "assumptions": COMMON_K + COMMON_M + ["power-loss model at parse level only: a torn tail is any failure of read / parse / validation of some record",
                                           "outside: real SIGKILL, init's directory handling, index files, recovery tool, writes after recovery"],
 }
+
+PROPS["C03"]["mir"].append(ob("from_records_order", "ob_bptree", "from_records_order"))
+PROPS["C12"]["mir"].append(ob("from_records_order_c12", "ob_bptree", "from_records_order"))
+PROPS["C11"]["mir"] += [ob("from_records_order_c11", "ob_bptree", "from_records_order"),
+                        ob("append_all_only_appends_c11", "ob_file", "append_all_only_appends"),
+                        ob("append_writable_only_appends_c11", "ob_file", "append_writable_only_appends")]
+PROPS["C14"]["mir"] += [ob("append_all_only_appends_c14", "ob_file", "append_all_only_appends"),
+                        ob("append_writable_only_appends_c14", "ob_file", "append_writable_only_appends")]
+
+PROPS["C07"] = {
+    "level": "model_checking",
+    "kani": [],
+    "mir": [ob("append_all_only_appends", "ob_file", "append_all_only_appends"),
+            ob("append_writable_only_appends", "ob_file", "append_writable_only_appends"),
+            ob("from_records_order_c07", "ob_bptree", "from_records_order")],
+    "assumptions": COMMON_M + ["file operations are events (offset, length, outcome); std's write_all_at is all-or-error, write_at may be short",
+                               "the positional write (File::write_all_at) is reached only from from_records at offset 0 of the index file (from_records_order)",
+                               "outside: blob ids after restart/quarantine, truncation (clean_file) call sites, 'queries perform no writes' above File level"],
+}
+
+PROPS["C09"] = {
+    "level": "model_checking",
+    "kani": [H("c09_node_new_serialized_layout", "Node::new_serialized emits NodeMeta | keys | offsets and matches serialized_size_with_keys",
+               ["Node::new_serialized", "Node::serialized_size_with_keys"], "2 keys of 2 bytes, 3 offsets, all values", covers=1, timeout=600)],
+    "mir": [ob("partition_agree", "ob_bptree", "partition_agree", kwargs={"N": 6}, thorough_kwargs={"N": 8})],
+    "assumptions": COMMON_K + COMMON_M + ["outside: leaf packing (serialize_bptree), in-leaf search and left/right expansion (read_headers/go_right), end-to-end build-then-query, SHA-256"],
+}
